@@ -158,7 +158,7 @@ func execRibFib(c Case) (res evid.Result) {
 	R := reps()
 	for rep := 0; rep < R; rep++ {
 		hist := rep%2 == 0
-		procs := c.Procs[rep%len(c.Procs)]
+		procs := c.Procs[(rep/2)%len(c.Procs)] // both modes cycle through the whole list
 		tb := setupTables(c)
 		for _, op := range c.Init {
 			tb.do(op)
